@@ -35,6 +35,7 @@ class World:
         g["t"] = nx.Tuple([g["n"], g["d"]], name="t")
         self.defs["t"] = ("tuple", ["n", "d"])
         self.mkf("u", lambda t: sum(t), ["t"])
+        self.mkf("sq", lambda x, y: x * 3 - y, ["d", "d"])          # the same node in two argument slots: a replacement must re-point both
         self.mkf("gq", self.raising, ["c"])
         g["fb"] = nx.Fallback([g["gq"], g["d"]], exception_type=Boom, name="fb")
         self.defs["fb"] = ("fallback", ["gq", "d"])
@@ -112,7 +113,7 @@ class World:
             return "raises:" + type(e).__name__
 
 
-READ = ["n", "m", "p", "a", "t", "u", "fb", "arr", "gq"]
+READ = ["n", "m", "p", "a", "t", "u", "fb", "arr", "gq", "sq"]
 OPS = [("set", "c", 2.0), ("set", "c", -1.0), ("set", "c", 4.0), ("set", "d", 20.0), ("set", "e", 7.0), ("read", "p"), ("read", "n"), ("read", "a"), ("read", "u"), ("read", "fb"), ("read", "arr"),
        ("freeze", "n"), ("unfreeze", "n"), ("freeze", "p"), ("unfreeze", "p"), ("freeze", "t"), ("unfreeze", "t"), ("setfunc", "n"), ("setitem", "t"), ("setitem_arr", "arr"), ("replace", "d"), ("replace_child", "p"),
        ("add_child", "m"), ("freeze_stale", "m"), ("unfreeze", "m"), ("freeze_stale", "n")]
